@@ -72,7 +72,10 @@ def _run_canary(item: Tuple[str, str]) -> Dict[str, Any]:
         d = _run_job(c["job"])
     finally:
         interp.OVERLAY.clear()
-    failed = sorted({o["name"] for o in d["obligations"] if o["status"] in ("violated", "known_finding")})
+    # a canary with not_proved=True targets an inductive job whose solver answers `unknown` rather than
+    # `sat` on quantified goals: there, "the proof no longer goes through" is the detection
+    bad_status = ("violated", "known_finding", "undecided") if c.get("not_proved") else ("violated", "known_finding")
+    failed = sorted({o["name"] for o in d["obligations"] if o["status"] in bad_status})
     expected = c["expect"]
     hit = [n for n in failed if any(e in n for e in expected)]
     if not hit and c.get("via"):
